@@ -123,7 +123,7 @@ def run(ctx):
     hop_anchor = None       # block after which the hop list is complete
     if base_v[0] == "call" and isinstance(base_v[3], str) and common.last_seg(base_v[3]) == "collect" and not loop_pushes:
         ads, kind, src = common.iter_chain(base_v[4][0])
-        if [a for a, _ in ads] != ["map"] or kind != "into_iter" or set(ctx.roots(src)) != {P_(acc, ops_i)}:
+        if [a for a, _ in ads] not in (["map"], ["map", "enumerate"]) or kind != "into_iter" or set(ctx.roots(src)) != {P_(acc, ops_i)}:
             r1.fail("C11.R1:hop-order", acc.path, common.span_of_block_term(acc, base_v[2]),
                     "hop messages are not built one per operation in route order (adaptors %s over %s)" % ([a for a, _ in ads], sorted(ctx.roots(src))))
         else:
